@@ -33,6 +33,12 @@ class K:
         self.dtor = None     # SM
         self.fields = []
         self.vfns = []
+        self.templ = False   # written as `template<class T> struct <name>_T {...}; typedef <name>_T<int> <name>;`
+        self.self_args = False   # the template spells its own type with explicit arguments (`<name>_T<T>`) in its copy/move constructor
+
+    def query(self):
+        """the name under which parse_file -p knows the class itself (not a typedef of it)"""
+        return "%s_T<int>" % self.name if self.templ else self.name
 
     def all_bases(self):
         out = []
@@ -45,12 +51,13 @@ class K:
         return any(v for _, _, v in self.bases) or any(b.has_virtual_base() for b, _, _ in self.bases)
 
     def text(self):
-        out = "%s %s" % (self.key, self.name)
+        n = self.name + "_T" if self.templ else self.name
+        me = n + "<T>" if self.templ and self.self_args else n
+        out = "%s%s %s" % ("template<class T> " if self.templ else "", self.key, n)
         if self.bases:
             out += " : " + ", ".join("%s%s %s" % (a, " virtual" if v else "", b.name) for b, a, v in self.bases)
         out += " {\n"
         members = []
-        n = self.name
 
         def sm_text(sig, sm):
             s = ("virtual " if sm.virtual else "") + sig
@@ -66,9 +73,9 @@ class K:
         if self.octor:
             members.append((self.octor, "%s(int, int);" % n))
         if self.cctor:
-            members.append((self.cctor.vis, sm_text("%s(const %s &)" % (n, n), self.cctor)))
+            members.append((self.cctor.vis, sm_text("%s(const %s &)" % (n, me), self.cctor)))
         if self.mctor:
-            members.append((self.mctor.vis, sm_text("%s(%s &&)" % (n, n), self.mctor)))
+            members.append((self.mctor.vis, sm_text("%s(%s &&)" % (n, me), self.mctor)))
         if self.dtor:
             members.append((self.dtor.vis, sm_text("~%s()" % n, self.dtor)))
         for f in self.vfns:
@@ -101,28 +108,41 @@ class K:
                 cur = vis
             out += "  " + s + "\n"
         out += "};\n"
+        if self.templ:
+            out += "typedef %s<int> %s;\n" % (n, self.name)
         return out
 
 
-def gen_hierarchy(rng, n, allow_virtual_bases=True, covariant_p=0.3):
+def gen_hierarchy(rng, n, allow_virtual_bases=True, covariant_p=0.3, bias=None, templates_p=0.0):
+    """bias="defaulted": special members are mostly public and `= default` (whether they are then deleted is decided by the bases and members),
+    with a few classes whose special members are deleted or private to inherit from / hold"""
     ks = []
+    modes = ["decl", "decl", "default", "delete"]
+    viss = ["public", "public", "protected", "private"]
     for i in range(n):
         k = K("H%d" % i, rng.choice(["struct", "struct", "class"]))
+        if bias == "defaulted":
+            if i % 2 == 0 and rng.random() < 0.7:
+                modes, viss = ["delete", "delete", "decl", "default"], ["public", "private", "private", "protected"]
+            else:
+                modes, viss = ["default", "default", "default", "decl"], ["public", "public", "public", "protected"]
+        k.templ = rng.random() < templates_p
+        k.self_args = rng.random() < 0.6
         if ks and rng.random() < 0.7:
             for b in rng.sample(ks, min(len(ks), rng.choice([1, 1, 1, 2]))):
                 k.bases.append((b, rng.choice(["public", "public", "public", "protected", "private"]), allow_virtual_bases and rng.random() < 0.2))
         r = rng.random()
-        if r < 0.35:
-            k.dctor = SM(rng.choice(["public", "public", "protected", "private"]), rng.choice(["decl", "decl", "default", "delete"]))
+        if r < (0.6 if bias else 0.35):
+            k.dctor = SM(rng.choice(viss), rng.choice(modes))
         if rng.random() < 0.25:
             k.octor = rng.choice(["public", "public", "protected"])
-        if rng.random() < 0.3:
-            k.cctor = SM(rng.choice(["public", "public", "protected", "private"]), rng.choice(["decl", "decl", "default", "delete"]))
+        if rng.random() < (0.6 if bias else 0.3):
+            k.cctor = SM(rng.choice(viss), rng.choice(modes))
         if rng.random() < 0.1:
             k.mctor = SM("public", rng.choice(["decl", "default", "delete"]))
-        if rng.random() < 0.35:
+        if rng.random() < (0.6 if bias else 0.35):
             pure = rng.random() < 0.12
-            k.dtor = SM(rng.choice(["public", "public", "public", "protected", "private"]), "decl" if pure else rng.choice(["decl", "decl", "default", "delete"]),
+            k.dtor = SM(rng.choice(viss + ["public"]), "decl" if pure else rng.choice(modes),
                         virtual=pure or rng.random() < 0.5, pure=pure)
         for j in range(rng.choice([0, 0, 1, 1, 2])):
             kind = rng.choice(["int", "int", "cint", "ref", "cls", "cls"])
@@ -155,7 +175,7 @@ def gen_hierarchy(rng, n, allow_virtual_bases=True, covariant_p=0.3):
             k.vfns.append(VFn(fid, virt, pure, vis=rng.choice(["public", "public", "protected", "private"])))
         ks.append(k)
     # covariant return types: a function family returning `Hx *` down a public single-inheritance chain
-    if rng.random() < covariant_p:
+    if rng.random() < covariant_p and not any(k.templ for k in ks):
         for k in ks:
             for f in k.vfns:
                 if f.fid in (1, 21):
